@@ -144,11 +144,13 @@ def body(case):
                 out.add("equal-to-original", "equal-to-original", f"{show(p,250)} rebuilt as {show(p2,250)} via {show(specs,200)}")
         except Exception as e:
             out.exc("equality", e)
-    # labels survive
-    l1 = [getattr(x, "label", None) for x in p.parts]
-    l2 = [getattr(x, "label", None) for x in p2.parts]
-    if l1 != l2:
-        out.add("equal-to-original", "labels-dropped", f"labels {l1} rebuilt as {l2}")
+    # labels are part of a part's equality: they must survive when the original came from specs
+    # (for API-built originals the statement only asks for the same selection)
+    if how[0] == "spec":
+        l1 = [getattr(x, "label", None) for x in p.parts]
+        l2 = [getattr(x, "label", None) for x in p2.parts]
+        if l1 != l2:
+            out.add("equal-to-original", "labels-dropped", f"labels {l1} rebuilt as {l2}")
     return out
 
 
